@@ -55,6 +55,18 @@ func equalValue(x, y reflect.Value) bool {
 		// A number is never equal to a non-number. (A json.Number has kind String.)
 		return false
 	}
+	if (x.Kind() == reflect.Array && y.Kind() == reflect.Slice) || (x.Kind() == reflect.Slice && y.Kind() == reflect.Array) {
+		// Go arrays and slices both represent JSON arrays.
+		if x.Len() != y.Len() {
+			return false
+		}
+		for i := range x.Len() {
+			if !equalValue(x.Index(i), y.Index(i)) {
+				return false
+			}
+		}
+		return true
+	}
 	if x.Kind() != y.Kind() {
 		return false
 	}
